@@ -125,6 +125,13 @@ Section C01.
   Qed.
 End C01.
 
+(* 5b. scope of the first PoA hypothesis on the code as it is: it holds with two or more listed authority nodes, and fails for a
+       sole listed node (authority.Update does not write the flag of an entry with neither Prev nor Next) *)
+Theorem poa_hypothesis_scope :
+  (forall l ups, length l <> 1%nat -> state_apply_updates l ups = apply_updates_list l ups) /\
+  (exists l ups, state_apply_updates l ups <> apply_updates_list l ups).
+Proof. exact (conj state_updates_agree sole_node_cache_flag_diverges). Qed.
+
 (* 6. the packer's read of the authority list (authority.Candidates) is the validator's (AllCandidates + Pick) *)
 Theorem candidates_reads_agree funded limit l :
   snd (pick (new_candidates l) funded limit) = cands_walk funded limit l 0.
@@ -182,4 +189,5 @@ Print Assumptions verdict_independent_of_clock.
 Print Assumptions verdict_independent_of_cache_poa.
 Print Assumptions verdict_independent_of_cache_pos.
 Print Assumptions candidates_reads_agree.
+Print Assumptions poa_hypothesis_scope.
 Print Assumptions poa_v2_score_positive.
